@@ -272,12 +272,22 @@ def run_composite_cdf(case):
     if err > 1e-9 or lerr > 1e-9:
         r.viol("order", "%s is not squash -> cdf -> squash^-1 of the objects it was given" % label, out_err=err, logabsdet_err=lerr, **det)
     else:
+        # the inverse against the same chain run backwards by hand (squash, cdf^-1, squash^-1) - the same operations, so agreement is
+        # to rounding; whether the round trip recovers x is C02's clause (near saturation of the squashing it legitimately does not)
         try:
             with torch.no_grad():
-                xb, lbk = model.inverse(y[fin])
+                yy = y[fin]
+                xb, lbk = model.inverse(yy)
+                a2, la2 = squash(yy)
+                b2, lb2 = cdf.inverse(a2)
+                c2, lc2 = squash.inverse(b2)
             r.ev()
-            if float((xb - x[fin]).abs().max()) > 1e-6 * (1 + float(x.abs().max())):
-                r.viol("inverse_order", "%s.inverse does not undo its forward" % label, err=float((xb - x[fin]).abs().max()), **det)
+            ok2 = torch.isfinite(c2).all(1) & torch.isfinite(xb).all(1)
+            e2 = float((xb - c2)[ok2].abs().max()) if ok2.any() else 0.0
+            l2 = float((lbk - (la2 + lb2 + lc2))[ok2].abs().max()) if ok2.any() else 0.0
+            if e2 > 1e-9 or l2 > 1e-9:
+                r.viol("inverse_order", "%s.inverse is not squash -> cdf^-1 -> squash^-1 of the objects it was given" % label, out_err=e2,
+                       logabsdet_err=l2, **det)
         except Exception:
             r.count("composite_cdf_call_raised")
         r.cell("composite_cdf", sq, case["cdf"], D)
